@@ -45,6 +45,10 @@ func findSpecials() *specials {
 	return s
 }
 
+// killBudget is the number of real-process SIGKILL runs (`autota killrun`)
+// this generation may still emit; each costs a process start under strace.
+var killBudget int
+
 type story struct {
 	r    *vlib.R
 	emit func(string)
@@ -185,6 +189,11 @@ func (st *story) honest(faultP, crashP int) {
 	var bad []string
 	if r.Chance(1, 8) && len(act) > 0 {
 		bad = append(bad, vlib.Pick(r, act).String()+":"+vlib.Pick(r, badKinds))
+	}
+	if killBudget > 0 && crashP > 0 && r.Chance(1, 12) {
+		killBudget--
+		st.op("autota killrun %s %s %d", joinRefs(st.served()), joinRefs(shuffled(r, signers)), r.Intn(2))
+		return
 	}
 	st.run(st.served(), shuffled(r, signers), bad, st.faults(faultP), st.crash(crashP))
 }
@@ -417,7 +426,13 @@ func storyRollover(st *story) {
 	st.revokeKey0(a)
 	f := vlib.Pick(r, []string{"-", "-", "T", "S", "TS", "TS"})
 	c := vlib.Pick(r, []string{"-", "-", "0", "1", "2"})
-	st.run(st.served(), append(st.activeSigners(), st.revokedSigners()...), nil, f, c)
+	if killBudget > 0 && r.Chance(1, 3) {
+		// the revoking refresh dies for real between / before the two replacements
+		killBudget--
+		st.op("autota killrun %s %s %d", joinRefs(st.served()), joinRefs(append(st.activeSigners(), st.revokedSigners()...)), r.Intn(2))
+	} else {
+		st.run(st.served(), append(st.activeSigners(), st.revokedSigners()...), nil, f, c)
+	}
 	if r.Bool() {
 		st.op("autota restart")
 	}
@@ -628,6 +643,10 @@ func gen(r0 *vlib.R, n int, tier string, emit func(string)) {
 	x *= 0xD6E8FEB86659FD93
 	x ^= x >> 32
 	r := vlib.NewR(x)
+	killBudget = 12
+	if tier == "thorough" {
+		killBudget = 150
+	}
 	findSpecials()
 	count := 0
 	wrap := func(s string) { emit(s); count++ }
